@@ -399,6 +399,9 @@ def applyRes (cfg : Cfg) (pol : Policy) (step : Nat) (tickEv : Ev) (didComplete 
           st := { acc.st with isRunning := false },
           cmds := acc.cmds ++ [.publish (.failed step exc failures elapsed), .failWorkflow step exc] }
   | .addCollected buf ev =>
+    -- already scheduled to run again with a refreshed snapshot: the remaining collect
+    -- results of this tick are skipped (`if not step_no_longer_in_progress: continue`)
+    if acc.stillInProgress then acc else
     let ss := acc.st.workers step
     let coll := ss.collected.touch buf
     let st1 := acc.st.set step { ss with collected := coll }
